@@ -173,6 +173,10 @@ def run(chk):
         "two-independent-cones": _build({"a": I_, "b": I_, "c": I_, "d": I_, "p": ("xor", ["a", "b"]), "q": ("nor", ["c", "d"])}, outputs=["p", "q"]),
         "nor-latch": _build({"s": I_, "r": I_, "q": ("nor", ["r", "qn"]), "qn": ("nor", ["s", "q"])}, outputs=["q"]),
         "oscillator-under-enable": _build({"en": I_, "g": ("nand", ["en", "g"]), "o": ("buf", ["g"])}, outputs=["o"]),
+        # more startpoints than a counter may want to enumerate in one go (an implementation that splits the enumeration has to keep
+        # the caller's assumptions on the startpoints it splits on)
+        "wide::nine-startpoints": _build({**{f"a{i_}": I_ for i_ in range(9)}, "g": ("and", ["a0", "a1"]), "h": ("or", ["a2", "a3", "a4"]), "o": ("xor", ["g", "h", "a5", "a6"]), "p": ("nand", ["a7", "a8"])},
+                                         outputs=["o", "p"]),
     }
     n_mc = 0
     for polarity in (False, True):
@@ -186,6 +190,9 @@ def run(chk):
                 asms += [{n_: True}, {n_: False}]
             for n1, n2 in list(_it.combinations(nodes, 2))[:: (3 if chk.tier == "quick" else 1)]:
                 asms += [{n1: True, n2: False}, {n1: False, n2: False}]
+            if mname.startswith("wide::"):
+                # (each count enumerates up to 512 models: a handful of assumption sets on the first and the last startpoints by name)
+                asms = [None, {"a0": True}, {"a0": False, "a1": True}, {"a0": True, "g": False, "a1": True}, {"a8": True, "a1": False}, {"a0": True, "a1": True, "o": True}]
             prob = None
             n_mc += len(asms)  # (the first disagreement ends a model circuit's loop; the floor counts the planned evaluations)
             for asm in asms:
